@@ -25,10 +25,13 @@ ROOT = os.path.dirname(os.path.dirname(os.path.abspath(__file__)))
 COQ = os.path.join(ROOT, "coq")
 OCAML = os.path.join(ROOT, "ocaml")
 HARNESS = os.path.join(ROOT, "harness")
-EVID = os.path.join(ROOT, "evidence")
+# the three output locations can be redirected (used when a check is run against a seeded change in a private
+# mount namespace, so that the committed evidence and the shared build directory are left alone)
+EVID = os.environ.get("VERIF_EVID_DIR") or os.path.join(ROOT, "evidence")
 REPLAY = os.path.join(EVID, "replay")
 CORPUS = os.path.join(ROOT, "corpus")
-WORK = os.path.join(ROOT, ".work")
+WORK = os.environ.get("VERIF_WORK_DIR") or os.path.join(ROOT, ".work")
+HARNESS_TARGET = os.environ.get("CARGO_TARGET_DIR") or os.path.join(HARNESS, "target")
 NCPU = min(16, os.cpu_count() or 4)
 
 ENV = dict(os.environ)
@@ -288,7 +291,7 @@ def build_harness(pkg, timeout=1500, features=None):
     rc, out = sh(cmd, cwd=d, timeout=timeout)
     if rc != 0:
         raise BuildError("cargo build of %s failed (the harness is built against /repo's working tree):\n%s" % (pkg, out[-4000:]))
-    return os.path.join(HARNESS, "target", "release", pkg), round(time.time() - t0, 1)
+    return os.path.join(HARNESS_TARGET, "release", pkg), round(time.time() - t0, 1)
 
 
 class BuildError(RuntimeError):
